@@ -78,6 +78,7 @@ func runC03(r *an.Run) {
 	relabel(r, "R3-anchoring-and-consumption", "R19-the-run-an-elision-skipped-is-recorded-with-its-region")
 	relabel(r, "R4-recorded-run-is-skipped-run", "R19-the-run-an-elision-skipped-is-recorded-with-its-region")
 	relabel(r, "R5-search-completeness", "R19-the-run-an-elision-skipped-is-recorded-with-its-region")
+	listBuiltIsNewMemory(r, "R20-the-list-built-is-new-memory")
 }
 
 func c03Siblings(r *an.Run) {
